@@ -37,6 +37,13 @@ JudgeOpaque(e) ==  \* R / X / C / A: bytes -> value -> bytes
     ELSE IF e.nan = 0 /\ e.bytes2 # e.bytes THEN "C18:" \o e.t \o "-not-inverse"
     ELSE "ok"
 
+\* a byte string / array of another length than the type's width is outside the type's range: refused (with the library's type error)
+JudgeWide(e) ==
+    IF e.n = e.w THEN "triv"
+    ELSE IF e.out = "ok" THEN "C18:" \o e.t \o "-value-of-wrong-length-accepted"
+    ELSE IF e.out # "UBXTypeError" THEN "C18:" \o e.t \o "-value-of-wrong-length-refused-with:" \o e.out
+    ELSE "ok"
+
 JudgeNom(e) ==
     IF e.out # "ok" THEN "C18:nomval-failed"
     ELSE IF Len(e.bytes) # e.w \/ ~IsZero(e.bytes) THEN "C18:nomval-not-all-zero"
@@ -60,12 +67,15 @@ JudgeBits(e) == IF e.out # GetBits(e.bf, e.mask) THEN "C18:get_bits" ELSE "ok"
 
 JudgeProt(e) == IF e.out # ProtBit(Protocol(e.b1, e.b2, NmeaB2)) THEN "C18:protocol" ELSE "ok"
 
+\* grouped attribute names carry one index per nesting level (any depth): e.more = the indices below the second level
 JudgeAtt(e) ==
-    LET name == e.base \o Idx2(e.i) \o (IF e.j > 0 THEN Idx2(e.j) ELSE "") IN
+    LET ix == <<e.i>> \o (IF e.j > 0 THEN <<e.j>> \o e.more ELSE <<>>)
+        name == e.base \o FoldLeft(LAMBDA acc, x : acc \o Idx2(x), "", ix)
+    IN
     IF e.name # name THEN "triv"
     ELSE IF e.outname # e.base THEN "C18:att2name"
     ELSE IF e.j = 0 /\ e.outidx # <<e.i>> THEN "C18:att2idx"
-    ELSE IF e.j > 0 /\ e.outidx # <<e.i, e.j>> THEN "C18:att2idx-nested"
+    ELSE IF e.j > 0 /\ e.outidx # ix THEN "C18:att2idx-nested"
     ELSE "ok"
 
 JudgeSpHp(e) == IF SpHp(e.N, e.sp, e.hp) THEN "ok" ELSE "C18:val2sphp"
@@ -109,7 +119,7 @@ Judge(e) == CASE e.kind = "int" -> JudgeInt(e) [] e.kind = "dec" -> JudgeDec(e) 
               [] e.kind = "twos" -> JudgeTwos(e) [] e.kind = "esc" -> JudgeEsc(e) [] e.kind = "hext" -> JudgeHext(e)
               [] e.kind = "dop" -> JudgeDop(e) [] e.kind = "lookup" -> JudgeLookup(e) [] e.kind = "kfv" -> JudgeKfv(e)
               [] e.kind = "mon" -> JudgeMon(e) [] e.kind = "msgstr" -> JudgeMsgStr(e) [] e.kind = "msgcls" -> JudgeMsgCls(e)
-              [] e.kind = "attsiz" -> JudgeAttSiz(e) [] OTHER -> "unknown-kind"
+              [] e.kind = "attsiz" -> JudgeAttSiz(e) [] e.kind = "wide" -> JudgeWide(e) [] OTHER -> "unknown-kind"
 
 Init == tid \in 1..Len(Traces) /\ verdict = "pending"
 Next == /\ verdict = "pending"
